@@ -82,6 +82,10 @@ CHECKS['C07'] = dict(level='other', engine='gosym', design='4/C07',
    technique='symbolic execution of the borrow checker loan table and place-overlap relation (go/ssa) over all short event histories against a reference model',
    text='PARTIAL (kernels): pathsOverlap/pathsEqual vs the prefix relation; the loan table (addBorrow, bindRefFromIdent, releaseBinding, checkAccess, findBorrow, removeBorrowEntry) driven through every history borrow / copy-or-borrow / release / access over 4 places and 2 references (2880 histories, events symbolic): an error is reported exactly when a conflicting loan is live in the reference aliasing-xor-mutation model.',
    note=_GO_NOTE + ' NOT decided: last-use computation and scope exit over real bodies, checkReturnLifetime, reference write-through in generated code (a few templates in C01).')
+CHECKS['C12'] = dict(level='other', engine='gosym', design='4/C12',
+   technique='symbolic execution of the visibility decision kernels (go/ssa) over symbolically chosen selector shapes, symbol kinds and scopes',
+   text='PARTIAL (kernels): utils.IsExported on every ASCII name up to 3 bytes; checkSelectorExpr (with the real inferExprType) on selectors of depth <= 3 over two struct types with private and exported fields, with symbol kinds (receiver / parameter / variable), reference-ness and shadowing symbolic: a lower-case field is accepted exactly when the base is an identifier resolving to a receiver.',
+   note=_GO_NOTE + ' NOT decided: module::symbol export checks, private types in type positions, other syntactic positions (range expressions etc.), multi-module projects.')
 NA_DEFAULT = 'check not built yet (work in progress, see DESIGN.md section 11)'
 NA = {}
 
